@@ -287,6 +287,12 @@ func runC02(r *simkit.Run) {
 			sender := common.BytesToAddress([]byte{0x81, byte(i)})
 			if c.Chance(650, "time-based") {
 				ts := bt + uint64(c.Range(0, 5, "ts-offset")) - 2
+				if c.Chance(60, "far-future-release-time") {
+					// "never": release times at the top of the 64-bit range (the registry only demands
+					// a time that is not in the past); such an identity must never be requested
+					ts = simkit.Pick(c, []uint64{1<<63 - 1, 1 << 63, ^uint64(0) - uint64(c.Intn(300, "below-max")), ^uint64(0)}, "far-future-value")
+					r.Probe("far-future-release-time")
+				}
 				specs = append(specs, logIdentityRegistered(kci, prefix, sender, ts))
 				newRegs = append(newRegs, &c02Reg{kind: "time", kci: kci, identity: identityOfTime(prefix, sender), ts: ts})
 			} else {
